@@ -11,7 +11,8 @@ import (
 
 type rawCAct struct {
 	Remove bool
-	Pick   int // remove: which of the removable registrations; add: which registration to copy
+	Again  bool // remove: name a registration that an earlier step (in scenario order) removes already
+	Pick   int  // remove: which of the removable registrations; add: which registration to copy
 	Fresh  bool
 	Client int
 	Path   []string
@@ -20,6 +21,19 @@ type rawCAct struct {
 type rawCRound struct {
 	Round    CRound
 	Mutators [][]rawCAct
+	Gangs    []rawGang
+}
+
+// rawGang: the remove function of ONE registration is called by N mutator
+// goroutines of the round as their first (Back: last) step, so that the calls
+// overlap; member i calls it Again[i] more times directly afterwards.
+type rawGang struct {
+	Pick   int
+	Prefer bool // prefer a registration compatible with a (pausing) call of the round
+	N      int
+	Again  []int
+	Off    int // the members are mutators Off .. Off+N-1
+	Back   bool
 }
 
 func (c cfg) rawCAct(t *rapid.T) rawCAct {
@@ -82,13 +96,66 @@ func resolveConc(regs []CReg, raw []rawCRound) *ConcScenario {
 	}
 	for ri, rr := range raw {
 		rd := rr.Round
-		for mi, mut := range rr.Mutators {
-			var acts []CAct
+		// gangs first: they name registrations of earlier rounds only, so
+		// every mutator of the round may call the remove function
+		front, back := map[int][]CAct{}, map[int][]CAct{}
+		nMut := len(rr.Mutators)
+		for _, g := range rr.Gangs {
+			var cand, pref []int
+			for id, h := range hs {
+				if h.taken || h.round >= ri {
+					continue
+				}
+				cand = append(cand, id)
+				for _, call := range rd.Calls {
+					if rd.Mode == "paused" && call.PauseAt < 0 {
+						continue
+					}
+					entries := [][]string{call.Path}
+					if call.Notif != nil {
+						entries = call.Notif.entryPaths(call.Prefix)
+					}
+					if compatibleAny(h.path, entries) {
+						pref = append(pref, id)
+						break
+					}
+				}
+			}
+			if g.Prefer && len(pref) > 0 {
+				cand = pref
+			}
+			if len(cand) == 0 {
+				continue
+			}
+			id := cand[g.Pick%len(cand)]
+			hs[id].taken = true
+			for i := 0; i < g.N; i++ {
+				mi := g.Off + i
+				nMut = max(nMut, mi+1)
+				n := 1
+				if i < len(g.Again) {
+					n += g.Again[i]
+				}
+				for k := 0; k < n; k++ {
+					if g.Back {
+						back[mi] = append(back[mi], CAct{Kind: "remove", Handle: id})
+					} else {
+						front[mi] = append(front[mi], CAct{Kind: "remove", Handle: id})
+					}
+				}
+			}
+		}
+		for mi := 0; mi < nMut; mi++ {
+			var mut []rawCAct
+			if mi < len(rr.Mutators) {
+				mut = rr.Mutators[mi]
+			}
+			acts := front[mi]
 			for _, a := range mut {
 				if a.Remove {
 					var cand []int
 					for id, h := range hs {
-						if !h.taken && (h.round < ri || h.mutator == mi) {
+						if h.taken == a.Again && (h.round < ri || h.mutator == mi) {
 							cand = append(cand, id)
 						}
 					}
@@ -108,6 +175,7 @@ func resolveConc(regs []CReg, raw []rawCRound) *ConcScenario {
 				hs = append(hs, &info{client: client, path: path, round: ri, mutator: mi})
 				acts = append(acts, CAct{Kind: "add", Client: client, Path: clonePath(path)})
 			}
+			acts = append(acts, back[mi]...)
 			rd.Mutators = append(rd.Mutators, acts)
 		}
 		sc.Rounds = append(sc.Rounds, rd)
@@ -136,6 +204,84 @@ func TestC06InFlight(t *testing.T) {
 		rec.Current(sc)
 		st, err := runConc(sc)
 		rec.Case(sc, st.nontrivial, st.labels()...)
+		if err != nil {
+			rt.Fatalf("%s", rec.Fail(sc, "inflight", "%v", err))
+		}
+	})
+}
+
+// multi-remove part ---------------------------------------------------------------
+
+func (c cfg) rawCActMulti(t *rapid.T) rawCAct {
+	a := rawCAct{Pick: rapid.IntRange(0, 30).Draw(t, "pick")}
+	switch rapid.IntRange(0, 4).Draw(t, "kind") {
+	case 0, 1:
+		a.Remove = true
+	case 2:
+		a.Remove, a.Again = true, true
+	default:
+		if a.Fresh = rapid.IntRange(0, 3).Draw(t, "fresh") == 0; a.Fresh {
+			a.Client = rapid.IntRange(0, 5).Draw(t, "client")
+			a.Path = c.index(t, queryAlpha, 0, 4)
+		}
+	}
+	return a
+}
+
+func (c cfg) rawGang(t *rapid.T) rawGang {
+	g := rawGang{
+		Pick:   rapid.IntRange(0, 30).Draw(t, "gang-pick"),
+		Prefer: rapid.IntRange(0, 3).Draw(t, "gang-prefer") > 0,
+		N:      rapid.IntRange(2, 4).Draw(t, "gang-size"),
+		Off:    rapid.SampledFrom([]int{0, 0, 0, 1, 2}).Draw(t, "gang-off"),
+		Back:   rapid.IntRange(0, 5).Draw(t, "gang-back") == 0,
+	}
+	g.Again = rapid.SliceOfN(rapid.SampledFrom([]int{0, 0, 0, 1, 2}), g.N, g.N).Draw(t, "gang-again")
+	return g
+}
+
+func (c cfg) rawCRoundMulti(t *rapid.T) rawCRound {
+	r := rawCRound{}
+	paused := rapid.IntRange(0, 3).Draw(t, "mode") < 3
+	if paused {
+		r.Round.Mode = "paused"
+		r.Round.WaitMicros = rapid.IntRange(100, 600).Draw(t, "wait-micros")
+	} else {
+		r.Round.Mode = "free"
+		r.Round.Yield = rapid.IntRange(0, 3).Draw(t, "yield")
+	}
+	n := rapid.IntRange(1, 4).Draw(t, "calls")
+	for i := 0; i < n; i++ {
+		r.Round.Calls = append(r.Round.Calls, c.cCall(t, paused))
+	}
+	r.Mutators = rapid.SliceOfN(rapid.SliceOfN(rapid.Custom(c.rawCActMulti), 0, 4), 0, 3).Draw(t, "mutators")
+	r.Gangs = rapid.SliceOfN(rapid.Custom(c.rawGang), 0, 2).Draw(t, "gangs")
+	return r
+}
+
+func genMultiScenario(t *rapid.T) *ConcScenario {
+	c := genCfg(t)
+	regs := rapid.SliceOfN(rapid.Custom(func(t *rapid.T) CReg {
+		return CReg{Client: rapid.IntRange(0, 5).Draw(t, "client"), Path: c.index(t, queryAlpha, 0, 4)}
+	}), 1, 12).Draw(t, "regs")
+	return resolveConc(regs, rapid.SliceOfN(rapid.Custom(c.rawCRoundMulti), 1, 3).Draw(t, "rounds"))
+}
+
+// TestC06MultiRemove: the remove function of ONE registration is called from
+// 2-4 goroutines at once, and again afterwards (also after the same pair was
+// registered again), while Update / UpdateNotification calls are in flight
+// (paused inside a callback, or running freely). Same runner and oracles as the
+// in-flight part; never-after holds from the return of ANY of the calls.
+func TestC06MultiRemove(t *testing.T) {
+	if !vstat.Enabled("C06") {
+		t.Skip()
+	}
+	rec := vstat.New("C06", "multiremove")
+	rec.RunRapid(t, func(rt *rapid.T) {
+		sc := genMultiScenario(rt)
+		rec.Current(sc)
+		st, err := runConc(sc)
+		rec.Case(sc, st.multiNontrivial, st.labels()...)
 		if err != nil {
 			rt.Fatalf("%s", rec.Fail(sc, "inflight", "%v", err))
 		}
